@@ -62,26 +62,74 @@ Proof.
   - apply IH.
 Qed.
 
-(* what countInUsePics sees *)
-Lemma count_in_use_expected d r :
-  hcount_in_use (expected_hrps d r)
-  = u8 (match r with RpsExplicit neg pos => countb (map snd neg) + countb (map snd pos) | _ => 0 end).
-Proof. destruct r; reflexivity. Qed.
-
-Lemma go_count_in_use sp pp v :
-  hcount_in_use (expected_hslice_rps sp pp v) = u8 (hs_go_st_used sp pp v).
+(* what countInUsePics sees: the used entries of the set in force (7-55) *)
+Lemma map_snd_cumulate sg : forall l a, map snd (cumulate sg a l) = map snd l.
 Proof.
-  unfold expected_hslice_rps, hs_go_st_used.
+  induction l as [|[m used] t IH]; intros a; cbn [cumulate map]; [reflexivity|].
+  cbv zeta. cbn [map snd]. now rewrite IH.
+Qed.
+
+(* explicit sets: the derived set carries the coded used flags *)
+Definition rps_used_rel (p : rps_derived * hrps_syntax) : Prop :=
+  match snd p with
+  | RpsExplicit neg pos => d_num_used (fst p) = countb (map snd neg) + countb (map snd pos)
+  | _ => True
+  end.
+
+Lemma rps_used_rel_one prev idx r : rps_used_rel (derive_one prev idx r, r).
+Proof.
+  unfold rps_used_rel. destruct r as [neg ps|]; cbn [fst snd derive_one]; [|exact I].
+  unfold d_num_used. cbn [d_s0 d_s1]. rewrite !map_snd_cumulate. reflexivity.
+Qed.
+
+Lemma rps_used_rel_from : forall l prev done idx, length prev = length done ->
+  Forall rps_used_rel (combine prev done) ->
+  Forall rps_used_rel (combine (derive_all_from prev idx l) (done ++ l)).
+Proof.
+  induction l as [|r t IH]; intros prev done idx Hl Hf; cbn [derive_all_from].
+  - rewrite app_nil_r. exact Hf.
+  - replace (done ++ r :: t) with ((done ++ [r]) ++ t) by (rewrite <- app_assoc; reflexivity).
+    apply IH; [rewrite !app_length; cbn [length]; lia|].
+    rewrite combine_app_eq by exact Hl. apply Forall_app. split; [exact Hf|].
+    cbn [combine]. constructor; [apply rps_used_rel_one | constructor].
+Qed.
+
+Lemma sps_used_rel sp : Forall rps_used_rel (combine (hs_sps_derived sp) (sx_st_ref_pic_sets sp)).
+Proof.
+  unfold hs_sps_derived, derive_all.
+  apply (rps_used_rel_from (sx_st_ref_pic_sets sp) [] [] 0 eq_refl). constructor.
+Qed.
+
+Lemma count_in_use_expected d r : rps_used_rel (d, r) -> d_num_used d < 256 ->
+  hcount_in_use (expected_hrps d r) = d_num_used d.
+Proof.
+  unfold rps_used_rel, hcount_in_use. cbn [fst snd].
+  destruct r as [neg ps|]; cbn [expected_hrps rps_u0 rps_u1 rps_nused]; intros H Hb.
+  - rewrite <- H, N.add_0_r. unfold u8. rewrite N.mod_mod by discriminate.
+    apply N.mod_small. exact Hb.
+  - change (u8 (countb [] + countb [])) with 0. rewrite N.add_0_l. apply hu8_id. exact Hb.
+Qed.
+
+Lemma count_in_use_curr sp pp v : d_num_used (hs_curr_rps sp pp v) < 256 ->
+  hcount_in_use (expected_hslice_rps sp pp v) = d_num_used (hs_curr_rps sp pp v).
+Proof.
+  unfold expected_hslice_rps, hs_curr_rps.
   destruct (hs_nidr pp v); [|reflexivity].
   destruct (sx_short_term_ref_pic_set_sps_flag v).
-  - rewrite nth_error_combine.
-    destruct (nth_error (sx_st_ref_pic_sets sp) (N.to_nat (hs_st_idx sp pp v))) as [r|] eqn:E.
-    + destruct (nth_error (hs_sps_derived sp) (N.to_nat (hs_st_idx sp pp v))) as [d|] eqn:E2.
-      * cbn [fst snd]. rewrite count_in_use_expected. destruct r; reflexivity.
-      * exfalso. apply nth_error_None in E2. rewrite length_sps_derived in E2.
-        apply nth_error_None in E2. rewrite E in E2. discriminate.
-    + destruct (nth_error (hs_sps_derived sp) (N.to_nat (hs_st_idx sp pp v))); reflexivity.
-  - rewrite count_in_use_expected. destruct (sx_slice_st_rps v); reflexivity.
+  - intros Hb.
+    destruct (nth_error (combine (hs_sps_derived sp) (sx_st_ref_pic_sets sp)) (N.to_nat (hs_st_idx sp pp v)))
+      as [[d r]|] eqn:E.
+    + pose proof (nth_error_In _ _ E) as Hin.
+      pose proof (proj1 (Forall_forall _ _) (sps_used_rel sp) _ Hin) as Hrel.
+      rewrite nth_error_combine in E.
+      destruct (nth_error (hs_sps_derived sp) (N.to_nat (hs_st_idx sp pp v))) as [d'|] eqn:E1; [|discriminate].
+      destruct (nth_error (sx_st_ref_pic_sets sp) (N.to_nat (hs_st_idx sp pp v))) as [r'|]; [|discriminate].
+      injection E as -> ->.
+      rewrite (nth_error_nth _ _ (mkRpsD [] []) E1) in Hb |- *.
+      cbn [fst snd]. apply count_in_use_expected; assumption.
+    + apply nth_error_None in E. rewrite combine_length, length_sps_derived, Nat.min_id in E.
+      rewrite nth_overflow by (rewrite length_sps_derived; exact E). reflexivity.
+  - intros Hb. apply count_in_use_expected; [apply rps_used_rel_one | exact Hb].
 Qed.
 
 (* ------------------------------------------------------------------ short-term RPS in the slice header *)
@@ -317,7 +365,7 @@ Definition sl_rf (idr : bool) (hs : hsps) :=
 
 (* the model's NumPicTotalCurr before the pps_curr_pic_ref term *)
 Definition go_npt sp pp v : N :=
-  if hs_nidr pp v then lt_acc (u8 (hs_go_st_used sp pp v)) (lt_useds sp pp v) else 0.
+  if hs_nidr pp v then lt_acc (hcount_in_use (expected_hslice_rps sp pp v)) (lt_useds sp pp v) else 0.
 
 Lemma parses_sl_rf raw sp pp v pos :
   hsps_valid sp = true -> hslice_valid sp pp v = true -> hs_main pp v = true ->
@@ -356,7 +404,7 @@ Proof.
     pbind ltac:(apply parses_rd; exact Hlsb).
     pbind ltac:(apply parses_flag).
     pbind ltac:(apply (parses_sl_rp raw sp pp v); assumption).
-    cbn [fst snd]. rewrite go_count_in_use.
+    cbn [fst snd].
     pbind ltac:(apply (parses_sl_lt raw sp pp v); assumption).
     plast ltac:(apply (parses_opt raw _ (sx_sps_temporal_mvp_enabled_flag sp) _
                          (sx_slice_temporal_mvp_enabled_flag v) false); intros _; apply parses_flag).
